@@ -596,9 +596,27 @@ func classify(c *C13Case) (classes []string, nontrivial bool) {
 			}
 		}
 		seen := map[string]bool{}
+		for _, m := range []map[string]int{setAt, rmAt} {
+			for k := range m {
+				if fam == "mnt" || fam == "dev" {
+					// paths always start with '/': look at the path segments instead
+					for _, seg := range strings.Split(k, "/") {
+						if c := firstByteClass(seg); c != "" && seg != "." {
+							seen["path_segment_"+c] = true
+						}
+					}
+				} else if c := firstByteClass(k); c != "" {
+					seen["key_"+c] = true
+				}
+			}
+		}
 		for k, si := range setAt {
 			if ri, both := rmAt[k]; both {
 				nontrivial = true
+				if k != "" && k[0] < '-' {
+					// the plain key sorts BEFORE its removal marker
+					seen["both_key_first_byte_below_dash"] = true
+				}
 				if fam == "ann" {
 					seen["remove_and_set_same_key"] = true
 				} else if ri < si {
@@ -833,6 +851,17 @@ func classify(c *C13Case) (classes []string, nontrivial bool) {
 				}
 			}
 		}
+		fb := map[string]bool{}
+		for _, k := range adjKeys {
+			if c := firstByteClass(k); c != "" {
+				fb[c] = true
+			}
+		}
+		for _, c := range []string{"first_byte_below_dash", "first_byte_above_z", "single_odd_char"} {
+			if fb[c] {
+				add(fam + ":key_" + c)
+			}
+		}
 		if dash {
 			add(fam + ":literal_dash_key")
 		}
@@ -991,6 +1020,27 @@ func classify(c *C13Case) (classes []string, nontrivial bool) {
 	return append([]string{bucket}, classes...), nontrivial
 }
 
+// firstByteClass classifies a key by its first byte relative to the removal marker '-' and
+// to the usual letters/digits.
+func firstByteClass(k string) string {
+	if k == "" {
+		return ""
+	}
+	b := k[0]
+	alnum := (b >= '0' && b <= '9') || (b >= 'a' && b <= 'z') || (b >= 'A' && b <= 'Z')
+	switch {
+	case len(k) == 1 && !alnum && b != '-':
+		return "single_odd_char"
+	case len([]rune(k)) == 1 && b >= 0x80:
+		return "single_odd_char"
+	case b < '-':
+		return "first_byte_below_dash"
+	case b > 'z':
+		return "first_byte_above_z"
+	}
+	return ""
+}
+
 func runC13(c C13Case) ev.Outcome {
 	specJSON, err := json.Marshal(&c.Spec)
 	if err != nil {
@@ -1102,6 +1152,17 @@ func TestExh_C13(t *testing.T) {
 			}
 			n++
 		}
+	}
+	// keys whose first byte sorts below the removal marker (and one-character keys):
+	// remove+set of one key in one adjustment, the set wins
+	for _, c := range oddByteSweep() {
+		o := runC13(c)
+		o.Classes = append([]string{"sweep"}, o.Classes...)
+		r.Record(c, o)
+		if o.Fail != "" {
+			t.Fatalf("C13: %s", o.Fail)
+		}
+		n++
 	}
 	// families without removal markers: dash-named keys and values are ordinary
 	for i := range literalDashSweep() {
@@ -1269,5 +1330,28 @@ func literalDashSweep() []C13Case {
 		BlockIOClass: &bio,
 		RdtClass:     &rdt,
 	}})
+	return out
+}
+
+// oddByteSweep: remove+set of one annotation / one variable whose name starts with (or is) a
+// byte below '-', key present in the spec or not, both list orders for env.
+func oddByteSweep() []C13Case {
+	var out []C13Case
+	for _, k := range []string{"$k", "+k", " k", "*", ",", "!k", "~k", "\x7f", "é"} {
+		for _, present := range []bool{true, false} {
+			s := rspec.Spec{Version: "1.1.0", Process: &rspec.Process{Cwd: "/", Env: []string{"HOME=/"}}, Annotations: map[string]string{"other": "o"}, Linux: &rspec.Linux{}}
+			if present {
+				s.Annotations[k] = "old"
+				s.Process.Env = append(s.Process.Env, k+"=old")
+			}
+			specJSON, _ := json.Marshal(&s)
+			fresh := func() rspec.Spec { var c rspec.Spec; _ = json.Unmarshal(specJSON, &c); return c }
+			out = append(out,
+				C13Case{Spec: fresh(), Reps: 32, Adj: Adj{Annotations: map[string]string{"-" + k: "", k: "new"}}},
+				C13Case{Spec: fresh(), Reps: 32, Adj: Adj{Env: []KV{{K: "-" + k}, {K: k, V: "new"}}}},
+				C13Case{Spec: fresh(), Reps: 32, Adj: Adj{Env: []KV{{K: k, V: "new"}, {K: "-" + k}}}},
+			)
+		}
+	}
 	return out
 }
